@@ -26,6 +26,8 @@ fn run(r: &mut Run) -> Result<(), MachineryError> {
     let gc = Gamma { seps: seps(), algs: vec![Alg::CustomOnePerLine, Alg::CustomNaiveGreedy], spls: vec![Spl::Hyphen], bws: vec![true, false], indents: vec![("", ""), (">", ""), ("", "> ")], crlf: vec![false] };
     text_space(r, "C09/custom-algorithms", &[L, LLL, SP, NL, HY, W], t.pick(4, 6), &gc, M_C09, WidthMode::Display, 0)?;
     scale::text_scale(r, "C09/long-paragraphs", "C09")?;
+    // whole words and line breaks: paragraphs of several lines next to each other
+    text_space(r, "C09/word-sequences", &[WD1, WD3, WDH, NL], t.pick(5, 7), &Gamma { crlf: vec![false], ..gamma() }, M_C09, WidthMode::Display, 0)?;
 
     // (d) equivariance under LF -> CRLF for LF texts (including lone CRs)
     let g = Gamma { crlf: vec![false], ..gamma() };
